@@ -1,9 +1,10 @@
 // Command app: correspondence driver for the full application (engine `app`, C02-C11, C17):
 // real BaseApp + x/auth + x/pos + x/gov on MemDB driven through ABCI, with an emulated Tendermint
 // validator set. After EVERY op it dumps the state decoded from a raw iteration of the stores.
-//   <out>/app.ops   input of the model (see DESIGN.md, engine `app`)
-//   <out>/app.impl  one observation per op: "<hist>.<idx> <result> <state sections> T:<tm set>"
-//   <out>/app.stats.json
+//
+//	<out>/app.ops   input of the model (see DESIGN.md, engine `app`)
+//	<out>/app.impl  one observation per op: "<hist>.<idx> <result> <state sections> T:<tm set>"
+//	<out>/app.stats.json
 package main
 
 import (
@@ -26,7 +27,9 @@ import (
 	tmtypes "github.com/tendermint/tendermint/types"
 	dbm "github.com/tendermint/tm-db"
 
+	bam "github.com/pokt-network/posmint/baseapp"
 	"github.com/pokt-network/posmint/crypto"
+	stypes "github.com/pokt-network/posmint/store/types"
 	sdk "github.com/pokt-network/posmint/types"
 	"github.com/pokt-network/posmint/x/auth"
 	authExported "github.com/pokt-network/posmint/x/auth/exported"
@@ -95,15 +98,15 @@ func coins(n int64) sdk.Coins { return sdk.NewCoins(sdk.NewCoin(sdk.DefaultStake
 
 // one recorded ABCI-level request of a history, for replay on other instances (C01)
 type request struct {
-	kind  string // INIT BB AW BU TX EB CM
-	bb    abci.RequestBeginBlock
-	tx    []byte
-	addr  sdk.Address
-	amt   int64
-	sev   sdk.Dec
-	hdr   abci.Header
-	resA  string // consensus-relevant response of instance A
-	acl   bool   // an accepted change of gov/acl
+	kind string // INIT BB AW BU TX EB CM
+	bb   abci.RequestBeginBlock
+	tx   []byte
+	addr sdk.Address
+	amt  int64
+	sev  sdk.Dec
+	hdr  abci.Header
+	resA string // consensus-relevant response of instance A
+	acl  bool   // an accepted change of gov/acl
 }
 
 type hist struct {
@@ -806,7 +809,16 @@ func main() {
 	fq, _ := os.Create(*out + "/app.qry")
 	qry = bufio.NewWriter(fq)
 	defer func() { qry.Flush(); fq.Close() }()
-	defer func() { wo.Flush(); wi.Flush(); det.Flush(); xi.Flush(); fo.Close(); fi.Close(); fd.Close(); fx.Close() }()
+	defer func() {
+		wo.Flush()
+		wi.Flush()
+		det.Flush()
+		xi.Flush()
+		fo.Close()
+		fi.Close()
+		fd.Close()
+		fx.Close()
+	}()
 	for i := 0; i < *n; i++ {
 		runHistory(r, i, *blocks, wo, wi)
 	}
@@ -936,7 +948,7 @@ func runHistory(r *rng.R, id, maxBlocks int, wo, wi *bufio.Writer) {
 		tokens := 1000000*int64(1+r.Intn(4)) + int64(r.Intn(3))*int64(r.Intn(900000))
 		if r.Chance(1, 3) && len(vals) > 0 {
 			tokens = vals[len(vals)-1].StakedTokens.Int64() // equal powers at the cut-off
-			if r.Bool() { // ... with different stakes below the power unit
+			if r.Bool() {                                   // ... with different stakes below the power unit
 				tokens = tokens/1000000*1000000 + int64(r.Intn(1000000))
 			}
 		}
@@ -1017,7 +1029,9 @@ func runHistory(r *rng.R, id, maxBlocks int, wo, wi *bufio.Writer) {
 	h.app = simapp.New(dbm.NewMemDB(), h.index.Addr(), gen)
 	h.now = time.Unix(1600000000, int64(r.Intn(1000000000))).UTC()
 	var initRes abci.ResponseInitChain
-	if try(func() { initRes = h.app.InitChain(abci.RequestInitChain{ChainId: simapp.ChainID, Time: time.Unix(1600000000, 0).UTC()}) }) {
+	if try(func() {
+		initRes = h.app.InitChain(abci.RequestInitChain{ChainId: simapp.ChainID, Time: time.Unix(1600000000, 0).UTC()})
+	}) {
 		h.emitDead("INIT")
 		fmt.Fprintln(wo, "E")
 		return
@@ -1380,7 +1394,7 @@ func runHistory(r *rng.R, id, maxBlocks int, wo, wi *bufio.Writer) {
 	}
 	// ---- C01: the same request sequence on other instances
 	if det != nil {
-		for _, variant := range []string{"fresh", "restart", "interleaved"} {
+		for _, variant := range []string{"fresh", "restart", "interleaved", "crash"} {
 			res, _ := h.replay(variant, nil, nil)
 			fmt.Fprintf(det, "%d %s %s\n", id, variant, res)
 		}
@@ -1397,6 +1411,10 @@ func runHistory(r *rng.R, id, maxBlocks int, wo, wi *bufio.Writer) {
 		}
 		res, _ := h.replay("restart", cp, ref)
 		fmt.Fprintf(det, "%d consensus-params-restart %s\n", id, res)
+		res, _ = h.replay("interleaved", cp, ref)
+		fmt.Fprintf(det, "%d consensus-params-interleaved %s\n", id, res)
+		res, _ = h.replay("crash", cp, ref)
+		fmt.Fprintf(det, "%d consensus-params-crash %s\n", id, res)
 	}
 }
 
@@ -1421,7 +1439,8 @@ func tryMsg(f func()) (msg string) {
 // exportImport: the state after the last Commit is exported with every module's ExportGenesis, written and read back as
 // JSON (as a genesis file would be), and a fresh application is initialised from it (pos, auth, gov: auth's InitGenesis
 // derives the supply from the accounts the others created). One line in app.xi:
-//   <id> ok PRE <dump> POST <dump> UPS <updates>     |   <id> export-panic:<msg>   |   <id> import-panic:<msg> PRE <dump>
+//
+//	<id> ok PRE <dump> POST <dump> UPS <updates>     |   <id> export-panic:<msg>   |   <id> import-panic:<msg> PRE <dump>
 func (h *hist) exportImport() {
 	if xi == nil || h.dead {
 		return
@@ -1520,16 +1539,95 @@ func deliverString(r abci.ResponseDeliverTx) string {
 
 // replay runs the recorded requests on another instance and reports the first consensus-relevant difference
 // replays the recorded requests on another instance; responses are compared with [ref] (the main run's when nil)
+// ---------------------------------------------------------------- a database that can kill the process at a chosen write
+type crashDB struct {
+	dbm.DB
+	armed  bool
+	budget int
+}
+type crashSignal struct{}
+
+func (c *crashDB) unit() {
+	if !c.armed {
+		return
+	}
+	if c.budget == 0 {
+		panic(crashSignal{})
+	}
+	c.budget--
+}
+func (c *crashDB) Set(k, v []byte)     { c.unit(); c.DB.Set(k, v) }
+func (c *crashDB) SetSync(k, v []byte) { c.unit(); c.DB.SetSync(k, v) }
+func (c *crashDB) Delete(k []byte)     { c.unit(); c.DB.Delete(k) }
+func (c *crashDB) DeleteSync(k []byte) { c.unit(); c.DB.DeleteSync(k) }
+func (c *crashDB) NewBatch() dbm.Batch { return &crashBatch{c: c, b: c.DB.NewBatch()} }
+
+type crashBatch struct {
+	c *crashDB
+	b dbm.Batch
+	n int
+}
+
+func (b *crashBatch) Set(k, v []byte) { b.n++; b.b.Set(k, v) }
+func (b *crashBatch) Delete(k []byte) { b.n++; b.b.Delete(k) }
+func (b *crashBatch) Write() {
+	if b.n > 0 {
+		b.c.unit()
+	}
+	b.b.Write()
+}
+func (b *crashBatch) WriteSync() {
+	if b.n > 0 {
+		b.c.unit()
+	}
+	b.b.WriteSync()
+}
+func (b *crashBatch) Close() { b.b.Close() }
+
+func crashed(f func()) (died bool, other interface{}) {
+	defer func() {
+		if r := recover(); r != nil {
+			if _, ok := r.(crashSignal); ok {
+				died = true
+			} else {
+				other = r
+			}
+		}
+	}()
+	f()
+	return
+}
+
 func (h *hist) replay(variant string, cp *abci.ConsensusParams, ref []string) (string, []string) {
 	var got_all []string
-	db := dbm.NewMemDB()
+	var db dbm.DB = dbm.NewMemDB()
 	ix := simapp.NewTxIndex()
 	defer ix.Close()
-	app := simapp.New(db, ix.Addr(), h.gen)
+	rr := rng.New(uint64(h.id)*7919 + uint64(len(variant)))
+	var cdb *crashDB
+	var opts []func(*bam.BaseApp)
+	crashAt := -1
+	if variant == "crash" {
+		// the process dies at a random database write of a random Commit (not the first one: F18) and is reopened; pruning
+		// policies that keep the previous version until the new one is flushed (keepRecent = 0 is finding F8)
+		cdb = &crashDB{DB: db}
+		db = cdb
+		po := []stypes.PruningOptions{stypes.PruneNothing, stypes.PruneSyncable, stypes.NewPruningOptions(2, 3), stypes.NewPruningOptions(1, 0)}[rr.Intn(4)]
+		opts = append(opts, bam.SetPruning(po))
+		var cms []int
+		for i, q := range h.reqs {
+			if q.kind == "CM" {
+				cms = append(cms, i)
+			}
+		}
+		if len(cms) > 1 {
+			crashAt = cms[1+rr.Intn(len(cms)-1)]
+		}
+	}
+	app := simapp.New(db, ix.Addr(), h.gen, opts...)
 	var blockTxs []sentTx
 	seen := map[string]bool{}
 	curHeight := int64(0)
-	rr := rng.New(uint64(h.id)*7919 + uint64(len(variant)))
 	restartAt := -1
 	if variant == "restart" {
 		var cms []int
@@ -1574,12 +1672,8 @@ func (h *hist) replay(variant string, cp *abci.ConsensusParams, ref []string) (s
 			}
 		})
 	}
-	for i, q := range h.reqs {
-		if variant == "interleaved" && i > 0 && h.reqs[i-1].acl {
-			// right after a hand-over, before anything else looks at the list: a reader asks for it (at the committed height)
-			try(func() { app.Query(abci.RequestQuery{Path: "/custom/gov/acl"}) })
-		}
-		noise()
+	crashBudget := rr.Intn(8)
+	exec := func(i int, q request) string {
 		got := ""
 		switch q.kind {
 		case "INIT":
@@ -1626,15 +1720,72 @@ func (h *hist) replay(variant string, cp *abci.ConsensusParams, ref []string) (s
 		case "CM":
 			var res abci.ResponseCommit
 			quiesce()
-			if try(func() { res = app.Commit() }) {
-				got = "ABORT"
-			} else {
+			if i == crashAt && cdb != nil && !cdb.armed && crashBudget >= 0 {
+				cdb.armed, cdb.budget = true, crashBudget
+				crashBudget = -1
+				died, other := crashed(func() { res = app.Commit() })
+				cdb.armed = false
+				if other != nil {
+					return "ABORT"
+				}
+				if died {
+					return "CRASH"
+				}
+			} else if try(func() { res = app.Commit() }) {
+				return "ABORT"
+			}
+			{
 				got = hx(res.Data)
 				for _, x := range blockTxs {
 					ix.Add(x.bz, curHeight, x.res)
 					seen[string(x.bz)] = true
 				}
 				blockTxs = nil
+			}
+		}
+		return got
+	}
+	for i, q := range h.reqs {
+		if variant == "interleaved" && i > 0 && h.reqs[i-1].acl {
+			// right after a hand-over, before anything else looks at the list: a reader asks for it (at the committed height)
+			try(func() { app.Query(abci.RequestQuery{Path: "/custom/gov/acl"}) })
+		}
+		noise()
+		got := exec(i, q)
+		if got == "CRASH" {
+			// the process died inside Commit: reopen from the database, which must show the complete previous or the
+			// complete new version; from the previous one the interrupted block is executed again
+			if msg := tryMsg(func() { app = simapp.New(db, ix.Addr(), h.gen, opts...) }); msg != "" {
+				return fmt.Sprintf("DIVERGED op=%d kind=crash-reopen-failed %s", i, msg), got_all
+			}
+			switch app.LastBlockHeight() {
+			case curHeight:
+				stats["det/crash/reopened-at-the-new-version"]++
+				got = hx(app.LastCommitID().Hash)
+				for _, x := range blockTxs {
+					ix.Add(x.bz, curHeight, x.res)
+					seen[string(x.bz)] = true
+				}
+				blockTxs = nil
+			case curHeight - 1:
+				stats["det/crash/reopened-at-the-previous-version-and-re-executed"]++
+				j := i
+				for j > 0 && h.reqs[j].kind != "BB" {
+					j--
+				}
+				blockTxs = nil
+				for k := j; k <= i; k++ {
+					got = exec(k, h.reqs[k])
+					want := h.reqs[k].resA
+					if ref != nil && k < len(ref) {
+						want = ref[k]
+					}
+					if got != want && k < i {
+						return fmt.Sprintf("DIVERGED op=%d kind=%s re-executed-after-crash A=%.160s B=%.160s", k, h.reqs[k].kind, strings.ReplaceAll(want, " ", "_"), strings.ReplaceAll(got, " ", "_")), got_all
+					}
+				}
+			default:
+				return fmt.Sprintf("DIVERGED op=%d kind=crash reopened-at-height-%d-during-commit-of-%d", i, app.LastBlockHeight(), curHeight), got_all
 			}
 		}
 		got_all = append(got_all, got)
